@@ -100,9 +100,10 @@ def sh(cmd, timeout, cwd=None, env=None, stdin=None):
     t0 = time.time()
     try:
         p = subprocess.run(
-            cmd, cwd=cwd, env=e, input=stdin, stdout=subprocess.PIPE,
+            cmd, cwd=cwd, env=e, stdout=subprocess.PIPE,
             stderr=subprocess.STDOUT, timeout=timeout, text=True,
             shell=isinstance(cmd, str),
+            **(dict(input=stdin) if stdin is not None else dict(stdin=subprocess.DEVNULL))
         )
         return p.returncode, p.stdout, time.time() - t0
     except subprocess.TimeoutExpired as ex:
